@@ -110,6 +110,10 @@ func BlockingPrograms() []Prog {
 		p("waitgroup_wait", "wg := Sync::WaitGroup(1)\nwg.wait\no(1)\n"),
 		p("sleep_long", "sleep 60.seconds\no(1)\n"),
 		p("sleep_in_loop", "loop\n  sleep 10.milliseconds\nend\n"),
+		// one check site, slow iterations: a check that polls the context only every n-th time it is reached keeps
+		// this loop alive for n x 60 ms (the confirmation grace is 20 s); the first iterations are fast so that the check
+		// site has been reached before any cancellation delay expires
+		p("slow_iterations_single_check_site", "var n: Int = 0\nloop\n  sleep 60.milliseconds if n > 5\n  n = n + 1\nend\n"),
 		p("mutex_lock_twice", "m := Sync::Mutex()\nm.lock\nm.lock\no(1)\n"),
 		p("thread_spinning_child_and_waiting_parent", "wg := Sync::WaitGroup(1)\ngo\n  var n: Int = 0\n  loop\n    n = n + 1\n  end\nend\nwg.wait\n"),
 	}
